@@ -65,11 +65,26 @@ def main(tier, seed):
                     chk.violation(('lock-discipline' if ': L2' in w else 'cancellation') + ':handler::' + fn, 'obligation', w, v['cex'], confirmed=True)
         # L6: convergence of the published diagnostics
         cfound = []
-        for fn in ('on_did_change', 'on_did_open'):
-            res, complete = explore.explore(ucserver.converge_factory, (fn,), jobs=1)
+        for fn in ('on_did_change', 'on_did_open', 'on_did_change_watched_files'):
+            res, complete = explore.explore(ucserver.converge_factory, (fn,), jobs=jobs)
             chk.add_run('handler %s: diagnostics are re-spawned for every open document (two open documents, under-constrained)' % fn, res, complete, {'handler': fn, 'open_documents': 2},
                         nontrivial_classes=lambda c: c.startswith('respawned'))
             cfound += [(fn, v) for v in res.violations]
+        wfound = [(fn, v) for fn, v in cfound if fn == 'on_did_change_watched_files']
+        cfound = [(fn, v) for fn, v in cfound if fn != 'on_did_change_watched_files']
+        if wfound:
+            binary = lsp_replay.build_binary()
+            obs = None
+            for attempt in range(3):
+                obs = lsp_replay.watched_files_scenario(binary)
+                if obs['last_a'] is None:
+                    break
+            fn, v = wfound[0]
+            desc = '%s; real binary: document A (4000 functions + one syntax error) opened and, in the same write, workspace/didChangeWatchedFiles for another file on disk -> the last diagnostics published for A: %s' % (v['why'][0][:400], obs['last_a'])
+            if obs['last_a'] is None:
+                chk.violation('convergence:diagnostics:watched-files', 'obligation', desc, dict(v['cex'], scenario='didOpen A + didChangeWatchedFiles(other file) in one write'), confirmed=True)
+            else:
+                chk.inconclusive.append('obligation L6 violated but the missing diagnostics did not reproduce natively in 3 attempts (timing dependent): ' + desc[:400])
         if cfound:
             binary = lsp_replay.build_binary()
             obs = None
